@@ -96,11 +96,12 @@ def pure_external(name):
 
 
 class Event:
-    __slots__ = ("site", "callee", "args", "facts", "dest_ty", "at", "inlined", "ret", "visits")
+    __slots__ = ("site", "callee", "args", "facts", "dest_ty", "at", "inlined", "ret", "visits", "dest")
 
     def __init__(self, site, callee, args, facts, at, inlined):
         self.site, self.callee, self.args, self.facts = site, callee, list(args), facts
         self.at, self.inlined, self.ret, self.visits = at, inlined, None, 1
+        self.dest = None
 
     def __repr__(self):
         return "Event(%s @%s args=%s)" % (self.callee, self.at, [show(a) for a in self.args])
@@ -867,6 +868,7 @@ class Engine:
             name = tgt if tgt else "dyn:%s::%s" % (finfo.get("trait"), finfo.get("method"))
         diverges = t["target"] is None
         ev = self.record_event(site, name, args, st.facts, t["at"], func)
+        ev.dest = t["dest"]
         if diverges:
             return []
         ret = None
